@@ -26,28 +26,52 @@ structure Target where
   cols : List (List PageStat)
   /-- `OffsetIndex.FirstRowIndex` of the pages of the first sorting column -/
   firstRows : List Nat
+  /-- merge.go `rowGroupInterleavesChunks`: the row group is (or wraps) a merged row group, whose
+      `Rows()` interleave the rows of its members while its column chunks, hence its pages, list the
+      members one after the other -/
+  interleaved : Bool := false
 deriving Inhabited
+
+/-- position of a first-column value in sort order -/
+def ord (desc : Bool) (v : Int) : Int := if desc then -v else v
+
+/-- merge.go (rowGroupRangeOfSortedColumns, interleaved row groups): every non-null page is consulted,
+    the earliest first bound and the latest last bound in sort order are retained. (`last = none`
+    cannot happen for a page index whose non-null pages carry both bounds; the model takes the first
+    bound it meets.) -/
+def scanRange (desc : Bool) (pages : List PageStat) (first : Int) (last : Option Int) : Int × Option Int :=
+  pages.foldl (fun acc p =>
+    if p.nullPage then acc else
+    ((match (if desc then p.max else p.min) with
+      | some v => if ord desc v < ord desc acc.1 then v else acc.1
+      | none => acc.1),
+     (match (if desc then p.min else p.max), acc.2 with
+      | some v, some a => if ord desc v > ord desc a then some v else some a
+      | some v, none => some v
+      | none, a => a))) (first, last)
 
 /-- merge.go:259-291 for one sorting column: bound of the first / last row from the first / last
     non-null page; `none` = "no valid pages" -/
-def colRange (s : ColSpec) (pages : List PageStat) : Option (Option Int × Option Int) :=
+def colRange (s : ColSpec) (pages : List PageStat) (interleaved : Bool := false) : Option (Option Int × Option Int) :=
   let firstOf := fun (p : PageStat) => if p.nullPage then none else (if s.desc then p.max else p.min)
   let lastOf := fun (p : PageStat) => if p.nullPage then none else (if s.desc then p.min else p.max)
   match pages.findSome? firstOf with
   | none => none
-  | some first =>
-    let last := pages.reverse.findSome? lastOf
+  | some first0 =>
+    let last0 := pages.reverse.findSome? lastOf
+    let first := if interleaved then (scanRange s.desc pages first0 last0).1 else first0
+    let last := if interleaved then (scanRange s.desc pages first0 last0).2 else last0
     -- merge.go:297-309: the bound on the side of the nulls is null when the column holds nulls
     if pages.any (fun p => p.nullPage || p.hasNulls) then
       if s.nullsFirst then some (none, last) else some (some first, none)
     else some (some first, last)
 
 /-- merge.go:216-315 `rowGroupRangeOfSortedColumns` -/
-def rowGroupRange : List ColSpec → List (List PageStat) → Option (KeyRow × KeyRow)
+def rowGroupRange (interleaved : Bool := false) : List ColSpec → List (List PageStat) → Option (KeyRow × KeyRow)
   | [], _ => some ([], [])
   | s :: ss, pages :: rest =>
     if pages.isEmpty then none else
-    match colRange s pages, rowGroupRange ss rest with
+    match colRange s pages interleaved, rowGroupRange interleaved ss rest with
     | some (a, b), some (mn, mx) => some (a :: mn, b :: mx)
     | _, _ => none
   | _ :: _, [] => none
@@ -77,7 +101,7 @@ def rangesOf (specs : List ColSpec) : List Target → Option (List RG)
   | t :: rest =>
     if t.numRows = 0 then rangesOf specs rest
     else
-      match rowGroupRange specs t.cols, rangesOf specs rest with
+      match rowGroupRange t.interleaved specs t.cols, rangesOf specs rest with
       | some (a, b), some rs => some ({ t := t, lo := a, hi := b } :: rs)
       | _, _ => none
 
@@ -94,9 +118,6 @@ def segmentsOf (specs : List ColSpec) (ts : List Target) : Option (List (List RG
 
 /-! ## cut lookups (merge_refine.go:116-193) -/
 
-/-- position of a first-column value in sort order -/
-def ord (desc : Bool) (v : Int) : Int := if desc then -v else v
-
 /-- first-column page bounds in sort order: (earliest, latest) -/
 def pageBounds (desc : Bool) (p : PageStat) : Int × Int :=
   if desc then (ord desc (p.max.getD 0), ord desc (p.min.getD 0)) else (p.min.getD 0, p.max.getD 0)
@@ -109,12 +130,13 @@ def searchFirst {β : Type} (f : β → Bool) : List β → Nat
 /-- merge_refine.go:116-137: the lookups exist iff the first sorting column has pages, an offset
     index of the same length and no null page. `strict = false` is the code as it is (only pages that
     are entirely null are refused); `strict = true` also refuses pages that hold some nulls
-    (proposed_fixes/C09_cut_lookups_nulls.diff). -/
+    (proposed_fixes/C09_cut_lookups_nulls.diff). An interleaved row group has no lookups: they search
+    the pages and turn them into row positions, both of which need the pages in row order. -/
 def hasCuts (strict : Bool) (t : Target) : Bool :=
   match t.cols with
   | [] => false
   | pages :: _ => !pages.isEmpty && pages.length == t.firstRows.length &&
-      !pages.any (fun p => p.nullPage || (strict && p.hasNulls))
+      !pages.any (fun p => p.nullPage || (strict && p.hasNulls)) && !t.interleaved
 
 def pageEnd (t : Target) (p : Nat) : Nat :=
   if p + 1 < t.firstRows.length then t.firstRows.getD (p + 1) 0 else t.numRows
